@@ -158,7 +158,7 @@ let () =
       print_endline (if Parikh.witness (Particle.re_of p) (cv ms) (cv ws) then "1" else "0")
     | "cls" :: t :: [] ->
       let p = templates.(int_of_string t) in
-      print_endline (if Classes.no_opt p then "noopt" else if Classes.is_seq p then "seq" else if AbsBag.is_bag p then "bag" else "-")
+      print_endline (if Classes.no_opt p then "noopt" else if Classes.is_seq p then "seq" else if AbsBag.is_bag p then "bag" else if ChoiceClass.is_cseq p then "choice" else "-")
     | "bag" :: t :: ops ->
       let p = templates.(int_of_string t) in
       (match AbsBag.bag_of (nat_of_int 10) p with
@@ -170,6 +170,21 @@ let () =
          let tr = AbsBag.btrace alpha mn ([], O) bops in
          let strs = L.map (fun ((o, ids), v) ->
            (match o with AbsBag.BOk -> "ok" | AbsBag.BWrong -> "XMLChildContainerWrongElementError") ^ ";" ^ ints (L.map int_of_nat ids) ^ ";" ^ (if v then "1" else "0")) tr in
+         print_endline (S.concat " | " strs))
+    | "cho" :: t :: ops ->
+      let p = templates.(int_of_string t) in
+      (match ChoiceClass.slots_of p with
+       | None -> print_endline "NOTCHOICE"
+       | Some ct ->
+         let mops = L.map (fun o -> match parse_op o with
+             | PyM.OAdd a -> SeqMachine.MAdd a | PyM.ORemove k -> SeqMachine.MRemove k
+             | PyM.OReplace (k, a) -> SeqMachine.MReplace (k, a) | PyM.OReplaceSame k -> SeqMachine.MReplaceSame k | PyM.OFinal _ -> SeqMachine.MFinal
+             | _ -> failwith "outside the machine's operation set") ops in
+         let tr = ChoiceSeq.ctrace (ChoiceSeq.cminit ct) mops in
+         let strs = L.map (fun (((o, ord), uno), req) ->
+           let e = match o with SeqMachine.MOk -> "ok" | SeqMachine.MWrong -> "XMLChildContainerWrongElementError"
+                   | SeqMachine.MMax -> "XMLChildContainerMaxOccursError" | SeqMachine.MBadIndex -> "ok" | SeqMachine.MOutOfDomain -> "OUTOFDOMAIN" in
+           e ^ ";" ^ ints (L.map int_of_nat ord) ^ ";" ^ ints (L.map int_of_nat uno) ^ ";[" ^ ints (L.map int_of_pos req) ^ "]") tr in
          print_endline (S.concat " | " strs))
     | "seq" :: t :: ops ->
       let p = templates.(int_of_string t) in
